@@ -361,4 +361,14 @@ theorem leftDecideW_eq (n la left : Int) (started : Bool) (hla : -1 ≤ la) (hle
   -- the conversions): all `wrapInt 64` disappear
   simp (disch := omega) only [wrap64_id]
 
+/-! ### config wrappers (round 6) -/
+
+/-- `NewCompositeConf`, `NewInstanceStepConf`, `NewUnlimitedConf` hand every field of their config to the constructor
+unchanged, in the constructor's parameter order (whatever locals they go through): what the driver builds through the
+`New…Conf` constructors and what the config route decodes IS what the model's constructors are given -/
+theorem conf_forwards : confForwards =
+    [("NewCompositeConf", "NewComposite(Nested...)"),
+     ("NewInstanceStepConf", "NewInstanceStep(From, To, Step, StepDuration)"),
+     ("NewUnlimitedConf", "NewUnlimited(Duration)")] := by decide
+
 end Pandora.Bridge.C02Src
